@@ -1,5 +1,5 @@
-\* thorough exhaustive: every valid view of <= 2 rule shapes x accesses (nested shape counts as one) x 2 transactions x
-\* (Begin + <=2 requests/commits each), quick menus
+\* thorough exhaustive: every single rule shape x access and every interacting pair of shapes x accesses (~170 views;
+\* nested shape = 2 rules) x 2 transactions x (Begin + <=2 requests/commits each), every interleaving
 INIT Init
 NEXT Next
 CONSTANTS
